@@ -59,6 +59,7 @@ var props = []Prop{
 			{Name: "grpc-nofault", Engine: "grpcsim", Bin: "ov-cmd", Quick: 1000, Thorough: 50000, Knobs: map[string]string{"faults": "off"}, Timeout: 60 * time.Second},
 			{Name: "grpc-faults", Engine: "grpcsim", Bin: "ov-cmd", Quick: 2000, Thorough: 100000, Knobs: map[string]string{"faults": "on"}, Timeout: 60 * time.Second},
 			{Name: "websocket", Engine: "wssim", Bin: "ov-cmd", Quick: 1500, Thorough: 60000, Timeout: 60 * time.Second},
+			{Name: "engine-stress", Engine: "engstress", Quick: 64, Thorough: 4000, Timeout: 120 * time.Second},
 		},
 	},
 	{
